@@ -24,3 +24,18 @@ func VerifSwapGlobalL1(m map[sop.L2CacheType]*L1Cache) map[sop.L2CacheType]*L1Ca
 	globalL1CacheRegistry = m
 	return old
 }
+
+// VerifLoseLocks makes the in-memory L2 cache forget every lock it has granted (what a Redis restart, an eviction
+// or a TTL expiry under a slow holder does): the harness uses it to explore lock loss between commit phases.
+func VerifLoseLocks(c sop.L2Cache) bool {
+	m, ok := c.(*L2InMemoryCache)
+	if !ok {
+		return false
+	}
+	for _, sh := range m.locks.shards {
+		sh.mu.Lock()
+		sh.items = make(map[string]interface{})
+		sh.mu.Unlock()
+	}
+	return true
+}
